@@ -161,6 +161,20 @@ def dnp_span_cases(pool):
                                   'info_only': io_, 'continue_on_error': coe, 'filter': None, 'expect': exp,
                                   'expect_err': err, 'tags': ['damaged', 'undefined-element-inside-221-span'],
                                   'damage_kinds': ['undef-element'], 'damaged': [False, True, False], 'in_domain': False})
+    # the stop signature overwritten by every pattern, incl. bytes that are not UTF-8 (whatever the error message
+    # is built from, the error must be the library's)
+    for pat in (b'XXXX', b'7778', b'\x00\x00\x00\x00', b'\xff\xff\xff\xff', b'77\x807', b'\xc3\x28\xa0\xa1', b'\x80\x80\x80\x80'):
+        bad = bytearray(good[1]['bytes'])
+        bad[-4:] = pat
+        msgs = [good[0]['bytes'], bytes(bad), good[0]['bytes']]
+        stream = b''.join(msgs)
+        starts = [0, len(msgs[0]), len(msgs[0]) + len(msgs[1])]
+        for io_, coe in ((False, True), (False, False)):
+            exp, err = ([msgs[0], msgs[2]], None) if coe else ([msgs[0]], 'lib')
+            cases.append({'name': 'stop-overwritten-%s' % pat.hex(), 'stream': stream, 'starts': starts,
+                          'info_only': io_, 'continue_on_error': coe, 'filter': None, 'expect': exp, 'expect_err': err,
+                          'tags': ['damaged', 'stop-signature-pattern'], 'damage_kinds': ['stop'],
+                          'damaged': [False, True, False], 'in_domain': False})
     return cases
 
 
